@@ -63,6 +63,9 @@ def _cases(tier):
             for n in MD:
                 if 9 in o.values() or 9 in n.values():
                     cases.append({"sh": sh, "old": o, "new": n})
+    for sh in ("uniinlist", "unidict"):
+        cases += [{"sh": sh, "old": o, "new": n} for o in S3 for n in S3]
+    cases += [{"sh": sh, "old": o, "new": n, "weird": True} for sh in ("list", "indict") for o in S3 for n in S3 if o]
     # the same with hand-written parentheses around element expressions (all / every second element)
     for par in ("all", "odd", "even"):
         for sh in ("list", "tuple", "indict"):
@@ -112,6 +115,10 @@ def _old_text(c):
         return _seq_text(c["old"], sh, c)
     if sh == "inlist":
         return "[7, %s, 8]" % _seq_text(c["old"], "list", c)
+    if sh == "uniinlist":
+        return "['\xe4\xf6\xfc\U0001f40d', %s, 8]" % _seq_text(c["old"], "list", c)
+    if sh == "unidict":
+        return "{'gr\xfc\xdfe\U0001f40d': %s, 'z': 7}" % _seq_text(c["old"], "list", c)
     if sh == "indict":
         return "{'k': %s, 'z': 7}" % _seq_text(c["old"], "list", c)
     if sh == "dict":
@@ -129,6 +136,10 @@ def _new_expr(c):
         return repr(tuple(n))
     if sh == "inlist":
         return repr([7, list(n), 8])
+    if sh == "uniinlist":
+        return repr(["\xe4\xf6\xfc\U0001f40d", list(n), 8])
+    if sh == "unidict":
+        return repr({"gr\xfc\xdfe\U0001f40d": list(n), "z": 7})
     if sh == "indict":
         return repr({"k": list(n), "z": 7})
     items = list(n.items())
@@ -146,9 +157,9 @@ def _site(i, c):
 def _elts(node, sh):
     if sh in ("list", "tuple"):
         return node.elts
-    if sh == "inlist":
+    if sh in ("inlist", "uniinlist"):
         return node.elts[1].elts
-    if sh == "indict":
+    if sh in ("indict", "unidict"):
         return node.values[0].elts
 
 
@@ -205,8 +216,14 @@ def _analyze(c, i, before, after, rx, ctx):
     return None
 
 
+WEIRD = "W1 = 'u2028:\u2028 u2029:\u2029 x85:\x85 x1c:\x1c'  # \x0b vt\n\x0c\nW2 = 1\n\x0c\n"
+
+
 def _judge(cases):
     hdr = DC3 if any(c["sh"] in ("kwcall", "ntcall", "dcrcall") for c in cases) else ""
+    if any(c.get("weird") for c in cases):
+        # characters that str.splitlines() treats as line ends but the Python tokenizer does not, above every call of the module
+        hdr = "from inline_snapshot import snapshot\n" + WEIRD + hdr
     return batch.one_file(cases, _site, lambda c: [], ["fix"], _analyze, header=hdr)
 
 
@@ -325,15 +342,15 @@ def run_task(task):
     if "align" in task:
         return _align_probe(task["align"], task["L"])
     r = batch.run_batched(task["cases"], _judge, label=lambda c: "ok:" + c["sh"],
-                          key=lambda c: repr((c["sh"], c["old"], c["new"], c.get("rev"), c.get("par"))))
+                          key=lambda c: repr((c["sh"], c["old"], c["new"], c.get("rev"), c.get("par"), c.get("weird"))))
     # non-trivial only if something had to change and something had to survive
     keep = []
     for c in task["cases"]:
         if c["old"] != c["new"]:
             if isinstance(c["old"], list):
                 if lcs(c["old"], c["new"]):
-                    keep.append(repr((c["sh"], c["old"], c["new"], c.get("rev"), c.get("par"))))
+                    keep.append(repr((c["sh"], c["old"], c["new"], c.get("rev"), c.get("par"), c.get("weird"))))
             elif any(c["new"].get(k, 9) == v for k, v in c["old"].items()):
-                keep.append(repr((c["sh"], c["old"], c["new"], c.get("rev"), c.get("par"))))
+                keep.append(repr((c["sh"], c["old"], c["new"], c.get("rev"), c.get("par"), c.get("weird"))))
     r["nontrivial"] = [k for k in r["nontrivial"] if k in set(keep)]
     return r
